@@ -71,6 +71,10 @@ type Cloud struct {
 	mu       sync.Mutex
 	Instance string
 	NoMAC    bool // interfaces are created without a MAC address
+	// EFLO (LingJun node): interfaces are created attached, addresses carry a name and a
+	// status of their own ("Available" unless a transitional status was installed)
+	EFLO     bool
+	ipStatus map[string]*ipDrift
 	VSwitch  string
 	Zone     string
 	enis     map[string]*ENI
@@ -186,6 +190,35 @@ func (c *Cloud) beginLocked(op, eni string, ips []string) (*Call, int) {
 	return call, f
 }
 
+type ipDrift struct {
+	status string
+	syncs  int
+}
+
+// SetIPStatus makes the cloud report a transitional status for an existing address in
+// the next `syncs` listings of the instance's interfaces (EFLO only). The address
+// itself stays where it is.
+func (c *Cloud) SetIPStatus(ip, status string, syncs int) {
+	c.mu.Lock()
+	defer c.mu.Unlock()
+	if c.ipStatus == nil {
+		c.ipStatus = map[string]*ipDrift{}
+	}
+	c.ipStatus[ip] = &ipDrift{status: status, syncs: syncs}
+}
+
+func (c *Cloud) ipSetLocked(ip string, primary bool) aliyunClient.IPSet {
+	out := aliyunClient.IPSet{IPAddress: ip, Primary: primary}
+	if c.EFLO && !primary {
+		out.IPName = "ipn-" + ip
+		out.IPStatus = aliyunClient.LENIIPStatusAvailable
+		if d, ok := c.ipStatus[ip]; ok {
+			out.IPStatus = d.status
+		}
+	}
+	return out
+}
+
 func (c *Cloud) toAPI(e *ENI) *aliyunClient.NetworkInterface {
 	ni := &aliyunClient.NetworkInterface{
 		Status:                      e.Status,
@@ -200,10 +233,10 @@ func (c *Cloud) toAPI(e *ENI) *aliyunClient.NetworkInterface {
 		NetworkInterfaceTrafficMode: e.Mode,
 	}
 	for _, ip := range e.V4 {
-		ni.PrivateIPSets = append(ni.PrivateIPSets, aliyunClient.IPSet{IPAddress: ip, Primary: ip == e.Primary})
+		ni.PrivateIPSets = append(ni.PrivateIPSets, c.ipSetLocked(ip, ip == e.Primary))
 	}
 	for _, ip := range e.V6 {
-		ni.IPv6Set = append(ni.IPv6Set, aliyunClient.IPSet{IPAddress: ip})
+		ni.IPv6Set = append(ni.IPv6Set, c.ipSetLocked(ip, false))
 	}
 	return ni
 }
@@ -255,6 +288,11 @@ func (c *Cloud) CreateNetworkInterfaceV2(ctx context.Context, opts ...aliyunClie
 		nv6 = n.IPv6Count
 	}
 	e := c.newENILocked(typ, mode, nv4, nv6)
+	if c.EFLO {
+		// a LingJun interface is created on its node, there is no attach call
+		e.Status = aliyunClient.ENIStatusInUse
+		e.Instance = c.Instance
+	}
 	call.ENI = e.ID
 	call.IPs = append(append([]string(nil), e.V4...), e.V6...)
 	if f == FaultAfter {
@@ -301,6 +339,15 @@ func (c *Cloud) DescribeNetworkInterfaceV2(ctx context.Context, opts ...aliyunCl
 			continue
 		}
 		out = append(out, c.toAPI(e))
+	}
+	if o.NetworkInterfaceIDs == nil || len(*o.NetworkInterfaceIDs) == 0 {
+		// a full listing: transitional address statuses age
+		for ip, d := range c.ipStatus {
+			d.syncs--
+			if d.syncs <= 0 {
+				delete(c.ipStatus, ip)
+			}
+		}
 	}
 	return out, nil
 }
@@ -415,7 +462,7 @@ func (c *Cloud) AssignPrivateIPAddressV2(ctx context.Context, opts ...aliyunClie
 	if old := c.replayLocked("AssignV4", id, n, e.V4); old != nil && f == FaultNone {
 		call.Op = "AssignV4(replay)"
 		for _, ip := range old {
-			out = append(out, aliyunClient.IPSet{IPAddress: ip})
+			out = append(out, c.ipSetLocked(ip, false))
 			call.IPs = append(call.IPs, ip)
 		}
 		return out, nil
@@ -423,7 +470,7 @@ func (c *Cloud) AssignPrivateIPAddressV2(ctx context.Context, opts ...aliyunClie
 	for i := 0; i < n; i++ {
 		ip := c.newV4Locked()
 		e.V4 = append(e.V4, ip)
-		out = append(out, aliyunClient.IPSet{IPAddress: ip})
+		out = append(out, c.ipSetLocked(ip, false))
 		call.IPs = append(call.IPs, ip)
 	}
 	if f == FaultAfter {
@@ -459,7 +506,7 @@ func (c *Cloud) AssignIpv6AddressesV2(ctx context.Context, opts ...aliyunClient.
 	if old := c.replayLocked("AssignV6", id, n, e.V6); old != nil && f == FaultNone {
 		call.Op = "AssignV6(replay)"
 		for _, ip := range old {
-			out = append(out, aliyunClient.IPSet{IPAddress: ip})
+			out = append(out, c.ipSetLocked(ip, false))
 			call.IPs = append(call.IPs, ip)
 		}
 		return out, nil
@@ -467,7 +514,7 @@ func (c *Cloud) AssignIpv6AddressesV2(ctx context.Context, opts ...aliyunClient.
 	for i := 0; i < n; i++ {
 		ip := c.newV6Locked()
 		e.V6 = append(e.V6, ip)
-		out = append(out, aliyunClient.IPSet{IPAddress: ip})
+		out = append(out, c.ipSetLocked(ip, false))
 		call.IPs = append(call.IPs, ip)
 	}
 	if f == FaultAfter {
